@@ -1,3 +1,73 @@
-From MW Require Import Num.
-Theorem placeholder : True. Proof. exact I. Qed.
-Print Assumptions placeholder.
+(*  C12 — Clusters and TreeBandit condition on exactly the query's cell.
+   
+    k-means and the regression trees are oracles: the theorems hold for EVERY labelling and EVERY leaf function.
+    PROVED:
+     * after every (re)fit of Clusters the policy of cluster c is the stored policy object trained (lp.fit) on
+       exactly the stored rows whose k-means label is c, in stored order, and on nothing else;
+     * a query row is answered by the policy of the cluster k-means assigns it to;
+     * TreeBandit._fit_arm files each reward of the arm, in row order, under the leaf its context falls into,
+       appended after what the leaf already held, and leaves every other arm untouched.
+    ..._partial: the per-leaf statistic itself is C01 applied to the leaf's reward list (leaf policies are fresh
+    context-free policies fitted on it); findings D6 / D7 concern the leaf policies' binarizer and generator. *)
+From Coq Require Import List ZArith Bool Arith QArith Qcanon Permutation.
+From MW Require Import Num Assoc AssocFacts Rng Par CF CFInv CFClean CFForget CFSpec Matrix Lin Warm WarmInv Nbr NbrFacts NbrIndep LshFacts Clu Tree CellFacts Mab FacadeCF FacadeArms MoreFacts NumLaws CFAlg Sim Extra QcInst.
+Import ListNotations.
+
+Theorem C12_cluster_policy_trained_on_rows_with_its_label :
+  forall (R A G : Type) (N : Num R) (aeqb : A -> A -> bool) (s : (@clu R A G)) (g : G) 
+    (labels : list nat) (c : nat) (l : (@lp R A G)),
+  length (k_lps s) = k_n s ->
+  nth_error (k_lps s) c = Some l ->
+  nth_error (k_lps (fst (clu_refit N aeqb s g labels))) c =
+  Some
+    (fst
+       (lp_fit N aeqb l g (rows_with_label labels c (k_ds s)) (rows_with_label labels c (k_rs s))
+          (rows_with_label labels c (k_cx s)))).
+Proof. exact @cluster_policy_trained_on_its_rows. Qed.
+Print Assumptions C12_cluster_policy_trained_on_rows_with_its_label.
+
+Theorem C12_rows_with_label_are_exactly_those_labelled :
+  forall (T : Type) (labels : list nat) (c : nat) (l : list T) (x : T),
+  In x (rows_with_label labels c l) <->
+  (exists i : nat, nth_error labels i = Some c /\ nth_error l i = Some x).
+Proof. exact @rows_with_label_spec. Qed.
+Print Assumptions C12_rows_with_label_are_exactly_those_labelled.
+
+Theorem C12_query_uses_assigned_cluster :
+  forall (R A G : Type) (N : Num R) (aeqb : A -> A -> bool) (RG : RngOps R G) 
+    (lps : list (@lp R A G)) (sd : Z) (seeds : list Z) (row : list R) (rows : list (list R)) 
+    (c : nat) (assign : list nat) (l : (@lp R A G)) (is_predict : bool),
+  nth_error lps c = Some l ->
+  let
+  '(e, l', _) := lp_expectations1 N aeqb RG l (create RG sd) row in
+   clu_rows N aeqb RG lps (sd :: seeds) (row :: rows) (c :: assign) is_predict =
+   (if is_predict
+    then inl (argmax_first N e)
+    else inr (map (fun kv : A * R => (fst kv, Some (snd kv))) e))
+   :: clu_rows N aeqb RG (set_nth lps c l') seeds rows assign is_predict.
+Proof. exact @cluster_query_uses_assigned_cluster. Qed.
+Print Assumptions C12_query_uses_assigned_cluster.
+
+Theorem C12_tree_rewards_filed_under_leaf_of_context :
+  forall (R A : Type) (aeqb : A -> A -> bool),
+  (forall x y : A, aeqb x y = true <-> x = y) ->
+  forall (leaf : A -> list R -> nat) (lv : list (A * list (nat * list R))) (a : A) 
+    (ds : list A) (rs : list R) (cx : (@mat R)) (lf : nat),
+  let rows := filter (fun t : A * R * list R => aeqb (fst (fst t)) a) (combine (combine ds rs) cx) in
+  aget_d Nat.eqb [] (aget_d aeqb [] (tree_fit_arm aeqb leaf lv a ds rs cx) a) lf =
+  aget_d Nat.eqb [] (aget_d aeqb [] lv a) lf ++
+  map (fun row : A * R * list R => snd (fst row))
+    (filter (fun row : A * R * list R => leaf a (snd row) =? lf) rows).
+Proof. exact @tree_fit_arm_leaf. Qed.
+Print Assumptions C12_tree_rewards_filed_under_leaf_of_context.
+
+Theorem C12_tree_other_arms_untouched :
+  forall (R A : Type) (aeqb : A -> A -> bool),
+  (forall x y : A, aeqb x y = true <-> x = y) ->
+  forall (leaf : A -> list R -> nat) (lv : list (A * list (nat * list R))) (a b : A) 
+    (ds : list A) (rs : list R) (cx : (@mat R)),
+  b <> a -> aget aeqb (tree_fit_arm aeqb leaf lv a ds rs cx) b = aget aeqb lv b.
+Proof. exact @tree_fit_arm_other. Qed.
+Print Assumptions C12_tree_other_arms_untouched.
+
+
